@@ -231,6 +231,21 @@ def check_long(col, kind, st, T):
             col.violation(f"{kind}.bounds.raises", case, f"{type(ex).__name__}: {ex}", subtype=st)
 
 
+def check_many_vertices(col, kind, st, T):
+    """single elements with 63..1033 vertices (the extreme vertices at the start, in the middle and at the end)"""
+    from .c14 import long_family
+    fam = long_family(kind)
+    if not fam:
+        return
+    if st in ("int16", "float32"):
+        T = (1, 0, 0)
+    el = []
+    for e in fam[:9]:
+        el += [e, None]
+    check_array(col, kind, st, T, el[:7], dask_too=False)
+    check_array(col, kind, st, T, el[6:], dask_too=False)
+
+
 def plan(ctx):
     units = []
     nmax = 3
@@ -264,6 +279,7 @@ def run(ctx):
         kind, st, seqs = units[j]
         if seqs and seqs[0] == ():
             check_long(col, kind, st, L.transform_for(st, ctx.seed, salt=j))
+            check_many_vertices(col, kind, st, L.transform_for(st, ctx.seed, salt=j))
         pool = pools(kind, st.startswith("float"))
         T = L.transform_for(st, ctx.seed, salt=j)
         for s in seqs:
